@@ -57,8 +57,8 @@ CHECK = Check(
     extra_lake_targets=["OW.Props.C16"],
     pre_steps=[gentie_step, unit_constants],
     families=[
-        Family("K", rtol=None, args=["models=" + EXACT, "prop=C16", "n=150"], label="K-exact"),
-        Family("K", rtol=1e-9, atol_scale=1e-12, args=["models=" + POW, "prop=C16", "n=250"], label="K-tol"),
+        Family("K", rtol=None, args=["models=" + EXACT, "prop=C16", "n=300"], label="K-exact"),
+        Family("K", rtol=1e-9, atol_scale=1e-12, args=["models=" + POW, "prop=C16", "n=400"], label="K-tol"),
     ],
     level="proof",
     trusted=[
